@@ -361,3 +361,94 @@ Section Untied.
     split; [apply cntlt_mono|apply cntle_mono]; lra.
   Qed.
 End Untied.
+
+(* ----- the returned threshold is a monotone function of the target ----- *)
+Lemma floor_mono x y : x <= y -> (Qfloor x <= Qfloor y)%Z.
+Proof. apply Qfloor_resp_le. Qed.
+Lemma ceil_mono x y : x <= y -> (Qceiling x <= Qceiling y)%Z.
+Proof. apply Qceiling_resp_le. Qed.
+Lemma cell_cases x y : x <= y ->
+  (Qceiling x <= Qfloor y)%Z \/ (Qfloor x = Qfloor y /\ Qceiling x = Qceiling y).
+Proof.
+  intro H. destruct (Z_le_gt_dec (Qceiling x) (Qfloor y)) as [L|G]; [left; exact L|right].
+  pose proof (floor_mono x y H). pose proof (ceil_mono x y H).
+  pose proof (ceil_le_floor1 x). pose proof (ceil_le_floor1 y). pose proof (floor_le_ceil x). pose proof (floor_le_ceil y).
+  split; lia.
+Qed.
+
+Section Monotone.
+  Variable succ pred : Q -> Q.
+  Hypothesis Hsucc : forall x, x < succ x.
+  Hypothesis Hpred : forall x, pred x < x.
+  Notation inv := (inv_incr succ pred).
+
+  Lemma shifted_mono l u u' lc : u <= u' -> shifted l u lc <= shifted l u' lc.
+  Proof. intro H. unfold shifted. destruct lc; cbn [negb]; lra. Qed.
+  Lemma xpos_mono l u u' lc : (1 <= len l)%Z -> u <= u' -> xpos l u lc <= xpos l u' lc.
+  Proof. intros Hn H. pose proof (lenQ_pos l Hn). pose proof (shifted_mono l u u' lc H). unfold xpos. nra. Qed.
+
+  Lemma interior_in_range l u lc m : sorted l -> (1 <= len l)%Z -> interior l u lc ->
+    nthZ l 0 <= inv l u lc m /\ inv l u lc m <= nthZ l (len l - 1).
+  Proof.
+    intros Hs H Hi. destruct (interior_idx l u lc H Hi) as (A & B & C & D & _). cbv zeta in *.
+    destruct (linear_between succ pred l u lc Hs H Hi) as [L1 L2]. cbv zeta in *.
+    rewrite C in L1. rewrite D in L2.
+    assert (M1 : nthZ l 0 <= nthZ l (Qfloor (xpos l u lc))) by (apply (nthZ_mono l); [exact Hs|lia|lia]).
+    assert (M2 : nthZ l (Z.min (Qceiling (xpos l u lc)) (len l - 1)) <= nthZ l (len l - 1)) by (apply (nthZ_mono l); [exact Hs|lia|lia]).
+    assert (M3 : nthZ l (Qfloor (xpos l u lc)) <= nthZ l (len l - 1)) by (apply (nthZ_mono l); [exact Hs|lia|lia]).
+    assert (M4 : nthZ l 0 <= nthZ l (Z.min (Qceiling (xpos l u lc)) (len l - 1))) by (apply (nthZ_mono l); [exact Hs|lia|lia]).
+    rewrite (inv_interior succ pred l u lc m Hi). rewrite C, D.
+    destruct m; [split; lra|split; lra|].
+    rewrite (inv_interior succ pred l u lc Linear Hi), C, D in L1, L2. split; lra.
+  Qed.
+
+  Theorem inv_monotone l u u' lc m : sorted l -> (1 <= len l)%Z -> u <= u' -> inv l u lc m <= inv l u' lc m.
+  Proof.
+    intros Hs H Hu. pose proof (shifted_mono l u u' lc Hu) as Hsh.
+    destruct (inv_cases l u' lc) as [A'|[[A' B']|Hi']].
+    - (* upper sentinel on the right *)
+      rewrite (inv_upper succ pred l u' lc m A').
+      destruct (inv_cases l u lc) as [A|[[A B]|Hi]].
+      + rewrite (inv_upper succ pred l u lc m A). lra.
+      + rewrite (inv_low_sentinel succ pred l u lc m A B).
+        pose proof (Hpred (nthZ l 0)). pose proof (Hsucc (nthZ l (len l - 1))).
+        assert (nthZ l 0 <= nthZ l (len l - 1)) by (apply (nthZ_mono l); [exact Hs|lia|lia]). lra.
+      + destruct (interior_in_range l u lc m Hs H Hi). pose proof (Hsucc (nthZ l (len l - 1))). lra.
+    - (* lower sentinel on the right: then also on the left *)
+      rewrite (inv_low_sentinel succ pred l u' lc m A' B').
+      rewrite (inv_low_sentinel succ pred l u lc m); [lra|lra|lra].
+    - destruct (inv_cases l u lc) as [A|[[A B]|Hi]].
+      + destruct Hi' as [U1 _]. lra.
+      + rewrite (inv_low_sentinel succ pred l u lc m A B).
+        destruct (interior_in_range l u' lc m Hs H Hi'). pose proof (Hpred (nthZ l 0)). lra.
+      + (* both interior *)
+        destruct (interior_idx l u lc H Hi) as (A & B & C & D & _).
+        destruct (interior_idx l u' lc H Hi') as (A' & B' & C' & D' & _). cbv zeta in *.
+        pose proof (xpos_mono l u u' lc H Hu) as Hx.
+        set (x := xpos l u lc) in *. set (x' := xpos l u' lc) in *.
+        destruct (linear_between succ pred l u lc Hs H Hi) as [L1 L2].
+        destruct (linear_between succ pred l u' lc Hs H Hi') as [L1' L2']. cbv zeta in *.
+        fold x in L1, L2. fold x' in L1', L2'. rewrite C in L1. rewrite D in L2. rewrite C' in L1'. rewrite D' in L2'.
+        assert (Hlow : nthZ l (Qfloor x) <= inv l u lc m /\ inv l u lc m <= nthZ l (Z.min (Qceiling x) (len l - 1))).
+        { rewrite (inv_interior succ pred l u lc m Hi). fold x. rewrite C, D.
+          assert (nthZ l (Qfloor x) <= nthZ l (Z.min (Qceiling x) (len l - 1))) by (apply (nthZ_mono l); [exact Hs|pose proof (floor_le_ceil x); lia|lia]).
+          destruct m; [split; lra|split; lra|].
+          rewrite (inv_interior succ pred l u lc Linear Hi) in L1, L2. fold x in L1, L2. rewrite C, D in L1, L2. split; lra. }
+        assert (Hhigh : nthZ l (Qfloor x') <= inv l u' lc m /\ inv l u' lc m <= nthZ l (Z.min (Qceiling x') (len l - 1))).
+        { rewrite (inv_interior succ pred l u' lc m Hi'). fold x'. rewrite C', D'.
+          assert (nthZ l (Qfloor x') <= nthZ l (Z.min (Qceiling x') (len l - 1))) by (apply (nthZ_mono l); [exact Hs|pose proof (floor_le_ceil x'); lia|lia]).
+          destruct m; [split; lra|split; lra|].
+          rewrite (inv_interior succ pred l u' lc Linear Hi') in L1', L2'. fold x' in L1', L2'. rewrite C', D' in L1', L2'. split; lra. }
+        destruct (cell_cases x x' Hx) as [Sep|[Ef Ec]].
+        * (* different cells: inv u <= l[ceil x] <= l[floor x'] <= inv u' *)
+          assert (nthZ l (Z.min (Qceiling x) (len l - 1)) <= nthZ l (Qfloor x')) by (apply (nthZ_mono l); [exact Hs|lia|lia]).
+          destruct Hlow, Hhigh. lra.
+        * (* same cell: same indices, weights ordered *)
+          rewrite (inv_interior succ pred l u lc m Hi), (inv_interior succ pred l u' lc m Hi'). fold x x'.
+          rewrite C, D, C', D', Ef, Ec.
+          destruct m; [lra|lra|].
+          assert (Hab : nthZ l (Qfloor x') <= nthZ l (Z.min (Qceiling x') (len l - 1))) by (apply (nthZ_mono l); [exact Hs|pose proof (floor_le_ceil x'); lia|lia]).
+          set (a := nthZ l (Qfloor x')) in *. set (b := nthZ l (Z.min (Qceiling x') (len l - 1))) in *.
+          set (c := inject_Z (Qceiling x')). nra.
+  Qed.
+End Monotone.
